@@ -158,8 +158,13 @@ impl Mon<'_> {
             self.bad("region.size", format!("region size {} != {}", r.size().into_u64(), exp.len()));
             return;
         }
-        self.check_stream(r.stream(), exp, "region.stream()");
-        self.check_stream(ByteStream::from(r.clone()), exp, "ByteStream::from(region)");
+        // half of the time the slices are taken BEFORE anything streamed the content, i.e. while a background
+        // decoder may still be far from the end of this content
+        let slices_first = self.rng.chance(1, 2);
+        if !slices_first {
+            self.check_stream(r.stream(), exp, "region.stream()");
+            self.check_stream(ByteStream::from(r.clone()), exp, "ByteStream::from(region)");
+        }
         for _ in 0..3 {
             let (o, n) = self.sub(exp.len());
             match r.get_slice(jbk::Offset::from(o as u64), n) {
@@ -171,6 +176,11 @@ impl Mon<'_> {
                 }
                 Err(e) => self.bad("region.get_slice", format!("region.get_slice({o},{n}) on a {}-byte region: {e}", exp.len())),
             }
+        }
+        if slices_first {
+            self.out.obs.inc("regions_sliced_before_streamed");
+            self.check_stream(r.stream(), exp, "region.stream()");
+            self.check_stream(ByteStream::from(r.clone()), exp, "ByteStream::from(region)");
         }
         self.check_slice(&r.as_slice(), exp, depth);
         if depth < 3 {
@@ -277,7 +287,12 @@ pub fn run(desc: &Value, ctx: &Ctx) -> CaseOut {
                 Err(e) => return out.inconclusive(format!("open failed (C01's concern): {e}")),
             };
             let mut mon = Mon { out: &mut out, source: &source, rng: Rng::new(ops_seed), budget: 1500 };
-            for (i, addr) in created.addrs.iter().enumerate() {
+            let mut order: Vec<usize> = (0..created.addrs.len()).collect();
+            if ops_seed % 2 == 0 {
+                order.reverse();
+            }
+            for i in order {
+                let addr = &created.addrs[i];
                 let region = match pack.get_content(addr.content_id) {
                     Ok(Some(r)) => r,
                     other => {
